@@ -658,6 +658,9 @@ def flatten(scope, fn, keep=(), module_level=False):
     new.body = fl.block(new.body, caller_names, (fn.name,), 0)
     if not fl.expanded:
         return fn
+    # what became constant through the expansion (a prefix parameter bound to a literal ...) is folded like at parse time
+    from .tables import _ConstStrings, _Getattr
+    new = _Getattr().visit(_ConstStrings().visit(new))
     ast.fix_missing_locations(new)
     for n in ast.walk(new):
         for c in ast.iter_child_nodes(n):
@@ -689,9 +692,10 @@ def flat(scope, fn):
     if key is None or key not in PRIMS:
         return fn
     cache = scope.__dict__.setdefault('_flat_cache', {})
-    if fn.name not in cache:
-        cache[fn.name] = flatten(scope, fn, PRIMS[key], module_level=isinstance(scope, ast.Module))
-    return cache[fn.name]
+    ck = (fn.name, id(fn))          # a property getter and its setter share a name
+    if ck not in cache:
+        cache[ck] = flatten(scope, fn, PRIMS[key], module_level=isinstance(scope, ast.Module))
+    return cache[ck]
 
 
 def flat_methods(cls):
